@@ -76,7 +76,7 @@ def gen_align(rng, tier):
                  "ignore_h": rng.random() < 0.8}
     return {"mode": "align", "reuse": reuse, "guess": guess, "start": start, "end": end, "restraints": restr, "ignore_h": rng.random() < 0.6,
             "deform": rng.choice([None, [0], [0, 1], [1, 0, 2] if min(ns, ne) >= 2 else [0, 1]]),
-            "as_tuples": rng.random() < 0.5}
+            "as_tuples": rng.random() < 0.5, "twice": rng.random() < 0.3}
 
 
 def gen_guess(rng, tier):
@@ -172,6 +172,16 @@ def execute(trace, ctx):
 
 
 def exec_align(trace, ctx):
+    shared = {}
+    _align_once(trace, ctx, shared)
+    if trace.get("twice") and trace.get("guess") is None and trace["restraints"]:
+        # the SAME list object is handed to a second alignment of the same pair (a script that aligns, looks, aligns again):
+        # it must designate the same atoms again
+        ctx.probe("same_restraint_list_object_used_twice")
+        _align_once(trace, ctx, shared, second=True)
+
+
+def _align_once(trace, ctx, shared, second=False):
     import gaddlemaps._alignment as A
     from gaddlemaps import Alignment
     start = gen.make_molecule(trace["start"])
@@ -206,7 +216,9 @@ def exec_align(trace, ctx):
         ctx.probe("alignment_object_reused_for_another_pair")
     else:
         ali = Alignment(start, end)
-    restr = [tuple(r) if trace["as_tuples"] else list(r) for r in trace["restraints"]]
+    if "restr" not in shared:
+        shared["restr"] = [tuple(r) if trace["as_tuples"] else list(r) for r in trace["restraints"]]
+    restr = shared["restr"]
     given = [tuple(r) for r in trace["restraints"]]
     g = trace.get("guess")
     kwargs = {}
